@@ -99,12 +99,12 @@ Section Sound.
                py_abs P (o_path o) vo -> py_attr P vo n v' -> py_abs P q v';
     (* names pydoctor knows in a class namespace are bound by the class body itself *)
     C_own : forall o m qual body n, In o (objs st) -> py_abs P (o_path o) (VObj m qual) ->
-               is_some (child st o n) || is_some (assoc n (o_amap o)) = true ->
+               own st o n = true ->
                scope_body P m qual = Some body -> binder_of body n <> None;
     (* Class.find: a member found in a base class is the inherited attribute *)
     C_find : forall c n inh vo v', In c (objs st) ->
                child st c n = None -> assoc n (o_amap c) = None ->
-               find_for st c n = Some inh ->
+               find_for st c n = Some inh -> find_closed (length (objs st)) st c n = true ->
                py_abs P (o_path c) vo -> py_attr P vo n v' -> py_abs P (o_path inh) v'
   }.
 
@@ -138,7 +138,7 @@ Section Sound.
   (* a name found in the context itself is an attribute of the context value *)
   Lemma first_step_attr : forall o vo p v',
     In o (objs st) -> py_abs P (o_path o) vo -> pstep true vo p v' ->
-    is_some (child st o p) || is_some (assoc p (o_amap o)) = true ->
+    own st o p = true ->
     py_attr P vo p v'.
   Proof.
     intros o vo p v' Hin Hden [m [qual [Hvo Hn]]] Hown. subst vo.
@@ -229,21 +229,21 @@ Section Sound.
     (* the break is always sound *)
     assert (Hbreak : py_attr P vo p v' -> py_abs P ((o_path o ++ [p]) ++ rest) v).
     { intro Ha. eapply py_abs_app; [eapply py_abs_snoc; eassumption | exact Hrest]. }
-    cbn [trail_ok] in Hok. cbn [expand_from].
+    cbn [trail_ok] in Hok. cbn [expand_from]. unfold own in Hok.
     fold (continue_ok) in Hok.
     rewrite (l2f_unfold o p) in *.
     apply andb_true_iff in Hok. destruct Hok as [Hhere Hk].
     destruct (child st o p) as [c|] eqn:Ech.
     - (* the name is in the contents of the object *)
       assert (Hattr : py_attr P vo p v').
-      { destruct first; [|exact Hstep]. eapply first_step_attr; eauto. rewrite Ech. reflexivity. }
+      { destruct first; [|exact Hstep]. eapply first_step_attr; eauto. unfold own. rewrite Ech. reflexivity. }
       destruct (child_path _ _ _ Ech) as [_ Hpc].
       rewrite Hpc in *. rewrite (snoc_not_single _ p Hne) in *. cbn [andb] in *.
       apply Hcont; [eapply py_abs_snoc; eassumption | exact Hk].
     - destruct (assoc p (o_amap o)) as [q|] eqn:Eas.
       + (* the name is in the alias map of the object *)
         assert (Hattr : py_attr P vo p v').
-        { destruct first; [|exact Hstep]. eapply first_step_attr; eauto. rewrite Ech, Eas. reflexivity. }
+        { destruct first; [|exact Hstep]. eapply first_step_attr; eauto. unfold own. rewrite Ech, Eas. reflexivity. }
         assert (Hq : py_abs P q v') by (eapply (C_amap Hc); eassumption).
         cbn [is_some orb] in Hhere.
         destruct (path_eqb q [p] && negb first) eqn:Enf.
@@ -260,7 +260,8 @@ Section Sound.
         destruct (find_for st o p) as [inh|] eqn:Efm.
         * assert (Hk' : o_kind o = KClass).
           { unfold find_for in Efm. destruct (o_kind o); try discriminate. reflexivity. }
-          rewrite Hk' in *. rewrite Hhere in *.
+          rewrite Hk' in *. cbn [is_some negb orb] in Hhere.
+          apply andb_true_iff in Hhere. destruct Hhere as [Hhere Hclosed]. rewrite Hhere in *.
           assert (Hinh : py_abs P (o_path inh) v') by (eapply (C_find Hc); eassumption).
           destruct (path_eqb (o_path inh) [p]) eqn:Ei.
           -- apply Hbreak. exact Hstep.
@@ -276,7 +277,7 @@ Section Sound.
                                end
                    | _ => [p]
                    end [p] = true).
-          { destruct (o_kind o); try apply path_eqb_refl. exact Hhere. }
+          { destruct (o_kind o); try apply path_eqb_refl. apply andb_true_iff in Hhere. apply Hhere. }
           rewrite Efn in *. rewrite Efn. apply Hbreak. exact Hstep.
   Qed.
 
@@ -360,17 +361,32 @@ Proof.
     eapply IH; [|eassumption]. exact Hns.
 Qed.
 
+Lemma scan_body_cases : forall n sv eb d body l2 v,
+  scan_body n sv eb d (rev body ++ l2) = Some v ->
+  (exists l mn, In (SStar l mn) body /\ sv l mn = Some v) \/
+  (exists b, binder_of body n = Some b /\ eb b = Some v) \/
+  (binder_of body n = None /\ scan_body n sv eb d l2 = Some v).
+Proof.
+  intros n sv eb d. induction body as [|s rest IH]; intros l2 v H.
+  - right. right. split; [reflexivity | exact H].
+  - cbn [rev] in H. rewrite <- app_assoc in H. cbn [app] in H.
+    destruct (IH _ _ H) as [[l [mn [Hin Hs]]] | [[b [Hb He]] | [Hb Hs]]].
+    + left. exists l, mn. split; [right; exact Hin | exact Hs].
+    + right. left. exists b. split; [cbn; rewrite Hb; reflexivity | exact He].
+    + cbn [binder_of]. rewrite Hb.
+      destruct s as [t a | l m ns | l mn | c base cb | f | x e]; cbn [scan_body] in Hs.
+      * destruct (stmt_binder (SImport t a) n) as [b|] eqn:E; [right; left; eauto | right; right; auto].
+      * destruct (stmt_binder (SFrom l m ns) n) as [b|] eqn:E; [right; left; eauto | right; right; auto].
+      * destruct (sv l mn) as [v'|] eqn:E.
+        -- inversion Hs; subst. left. exists l, mn. split; [left; reflexivity | exact E].
+        -- right. right. split; [reflexivity | exact Hs].
+      * destruct (stmt_binder (SClass c base cb) n) as [b|] eqn:E; [right; left; eauto | right; right; auto].
+      * destruct (stmt_binder (SDef f) n) as [b|] eqn:E; [right; left; eauto | right; right; auto].
+      * destruct (stmt_binder (SAlias x e) n) as [b|] eqn:E; [right; left; eauto | right; right; auto].
+Qed.
+
 Section EvSound.
   Variable P : project.
-  Hypothesis NS : no_star P = true.
-
-  Lemma scope_no_star : forall m qual body, scope_body P m qual = Some body -> top_no_star body = true.
-  Proof.
-    intros m qual body H. unfold scope_body in H. destruct (find_module P m) as [mm|] eqn:E; [|discriminate].
-    apply no_star_top. eapply descend_no_star; [|eassumption].
-    unfold no_star in NS. rewrite forallb_forall in NS. apply NS.
-    unfold find_module in E. apply find_some in E. apply E.
-  Qed.
 
   Definition req_sem (r : req) (v : value) : Prop :=
     match r with
@@ -400,8 +416,17 @@ Section EvSound.
       destruct (find_module P m) as [mm|] eqn:Efm; [|discriminate].
       destruct (scope_body P m qual) as [body|] eqn:Esb; [|discriminate].
       rewrite <- (app_nil_r (rev body)) in H.
-      rewrite (scan_body_rev _ _ _ _ body (scope_no_star _ _ _ Esb)) in H.
-      destruct (binder_of body n) as [b|] eqn:Eb.
+      apply scan_body_cases in H. destruct H as [[l [mn [Hin H]]] | [[b [Eb H]] | [Eb H]]].
+      + (* bound by a star import *)
+        destruct qual as [|q0 qual]; [|discriminate].
+        destruct (resolve_relative m (m_pkg mm) l mn) as [X|] eqn:Er; [|discriminate].
+        destruct (is_module P X) eqn:Em; [|discriminate].
+        destruct (path_eqb X m) eqn:Ex; [discriminate|]. cbn [negb andb] in H.
+        destruct (exported P X n) eqn:Ee; [|discriminate].
+        assert (Hb : body = m_body mm).
+        { unfold scope_body in Esb. rewrite Efm in Esb. cbn in Esb. inversion Esb; reflexivity. }
+        subst body.
+        eapply ns_star; try eassumption. apply (IH (RNs X [] n)). exact H.
       + eapply ns_bind; try eassumption.
         destruct b as [base cb | | a | t | level modname orig | expr].
         * inversion H; subst. constructor.
@@ -458,9 +483,9 @@ Definition ev_abs (P : project) (fuel : nat) (q : path) : option value :=
     else None
   end.
 
-Lemma ev_abs_sound : forall P fuel q v, no_star P = true -> ev_abs P fuel q = Some v -> py_abs P q v.
+Lemma ev_abs_sound : forall P fuel q v, ev_abs P fuel q = Some v -> py_abs P q v.
 Proof.
-  intros P fuel q v NS H. destruct q as [|a rest]; [discriminate|]. cbn in H.
+  intros P fuel q v H. destruct q as [|a rest]; [discriminate|]. cbn in H.
   destruct (is_module P [a]) eqn:E; [|discriminate]. cbn. split; [exact E|].
   eapply fold_attrs; [|exact H]. intros r v0 Hr. eapply ev_sound; eassumption.
 Qed.
@@ -551,8 +576,10 @@ Section Fallback.
     unfold py_lookup in *. inversion Hpy as [m0 qual0 d rest0 v0 v1 Hn Hat]; subst.
     econstructor; [|exact Hat]. apply pn_own.
     inversion Hn as [m0 qual0 d v1 Hns | m0 qual0 body d v1 Hq' Hsb Hb Hns]; subst.
-    - exfalso. inversion Hns as [m0 qual0 body0 n0 b0 v1 Hsb0 Hbo Hpb | m0 mm0 n0 Hfm0 Hpk0 Hbo0 Him0]; subst.
+    - exfalso. inversion Hns as [m0 qual0 body0 n0 b0 v1 Hsb0 Hbo Hpb | m0 mm0 n0 Hfm0 Hpk0 Hbo0 Him0
+                                 | m0 mm0 l0 mn0 X0 n0 v1 Hfm0 Hin0 Hrr0 Him0 Hne0 Hex0 Hns0]; subst.
       + rewrite (Hnb _ Hsb0) in Hbo. discriminate.
+      + congruence.
       + congruence.
     - exact Hns.
   Qed.
